@@ -15,6 +15,7 @@ From OrdV Require Codec.Varint Codec.Script Codec.EnvScript Codec.Envelope Codec
 From OrdV Require Proofs.Envelope_proofs Proofs.Storage_proofs.
 From OrdV Require Properties.C25 Properties.C26 Properties.C27 Properties.C28 Properties.C35.
 From OrdV Require Index.Runes Proofs.Runes_supply Proofs.Runes_total Index.SatIndex Properties.C01.
+From OrdV Require Index.Inscr Proofs.Inscr_total.
 
 (* ---- 1. envelope extraction: RawEnvelope::from_transaction + ParsedEnvelope::from
    (src/inscriptions/envelope.rs, tag.rs; rust-bitcoin's instruction iterator and tapscript rule
@@ -120,9 +121,27 @@ Theorem C16_sat_index_total : forall c,
   SatIndex.valid c = true -> exists st, SatIndex.run c = Ok st /\ SatIndex.v_run 0 [] c = Some (SatIndex.vabs (SatIndex.utxo st)).
 Proof. exact C01.C01_valid_chain_indexed. Qed.
 
-(* ---- placeholder list for later contributions (not theorems yet):
-     inscription_updater_total   table unwraps, i32/u32 counters, calculate_sat unreachable!
-   To be added here under a C16_ name when its development provides it. *)
+(* ---- inscription updater (InscriptionUpdater::index_inscriptions / update_inscription_location and the
+   UTXO / sat-range plumbing of index_utxo_entries as modelled in Index/Inscr.v, where every table
+   `.unwrap()`, the i32 conversions of the blessed/cursed counters, `calculate_sat`'s `unreachable!()`,
+   `expect("insufficient inputs ...")`, the u64 subtractions of the fee / reward / lost-sats arithmetic, the
+   `input_utxo_entries[i]` indexing and the missing-input assert are Panic sites; the special-outpoint
+   assert holds by construction: the model only ever falls back to the null and unbound outpoints).
+   For every configuration (sat index on or off, any jubilee) with inscriptions indexed from height 0,
+   every chain that is valid in the sense of Inscr_total.chain_valid is indexed: Ok, no Panic.
+   Inscr_total.chain_valid, all hypotheses named:
+     - per non-coinbase transaction (tx_valid): txid not all-zero; no null input; every input is an
+       unspent output of the value ledger (so inputs exist and are pairwise distinct); outputs <= inputs;
+       at most the first parsed envelope has input = 0 and offset = 0 (first_only - what the parser's
+       per-input numbering guarantees);
+     - per block (block_valid): a coinbase first, all its inputs null, txid not all-zero, claiming at most
+       subsidy + fees; height below the first halving (Height::starting_sat is modelled there only);
+       the running number of envelopes in non-coinbase transactions stays <= 2^31 (the i32 counters).
+   No distinct-txid assumption is needed for totality. *)
+Theorem C16_inscription_updater_total : forall cfg c,
+  Inscr.c_first cfg = 0 -> Inscr_total.chain_valid cfg 0 [] 0 c ->
+  exists st, Inscr.index_chain cfg 0 c Inscr.empty_state = Ok st.
+Proof. exact Inscr_total.inscription_updater_total. Qed.
 
 Print Assumptions C16_envelope_parsing_total.
 Print Assumptions C16_pointer_decoding_total.
@@ -137,3 +156,4 @@ Print Assumptions C16_rune_balances_decode_total.
 Print Assumptions C16_runes_index_block_total.
 Print Assumptions C16_runes_index_chain_total.
 Print Assumptions C16_sat_index_total.
+Print Assumptions C16_inscription_updater_total.
